@@ -311,6 +311,13 @@ def gen_objects(rng, n):
                 L.append("COMPLETED:2024%02d01T000000Z" % rng.randint(1, 12))
         if rng.random() < 0.3:
             L.append("X-CUSTOM:" + rng.choice(["alpha", "Beta", "gamma delta"]))
+        if rng.random() < 0.3:
+            # values that are falsy once parsed
+            L.append(rng.choice(["PRIORITY:0", "SEQUENCE:0", "PRIORITY:5", "SEQUENCE:2"]))
+        if rng.random() < 0.15 and kind == "VTODO":
+            L.append("PERCENT-COMPLETE:0")
+        if rng.random() < 0.1:
+            L.append("COMMENT:")
         if rng.random() < 0.35 and kind in ("VEVENT", "VTODO"):
             L += ["BEGIN:VALARM", "ACTION:" + rng.choice(["DISPLAY", "AUDIO"]), "DESCRIPTION:Reminder", "TRIGGER:-PT15M", "END:VALARM"]
         L += ["END:" + kind, "END:VCALENDAR"]
@@ -346,7 +353,8 @@ def gen_filter(rng):
                     feats.append("nested-comp-prop-text-match")
                     inner["children"].append({"type": "comp", "name": "VALARM", "children": [{"type": "prop", "name": "ACTION", "text_match": {"text": rng.choice(["DISPLAY", "display", "AUD", "EMAIL"])}}]})
                 continue
-            pname = rng.choice(["SUMMARY", "SUMMARY", "DESCRIPTION", "LOCATION", "CATEGORIES", "UID", "X-CUSTOM", "ATTENDEE", "STATUS", "DTSTART", "COMPLETED"])
+            pname = rng.choice(["SUMMARY", "SUMMARY", "DESCRIPTION", "LOCATION", "CATEGORIES", "UID", "X-CUSTOM", "ATTENDEE", "STATUS", "DTSTART", "COMPLETED", "PRIORITY", "SEQUENCE",
+                                "PERCENT-COMPLETE", "COMMENT"])
             pf = {"type": "prop", "name": pname}
             k2 = rng.random()
             if k2 < 0.15:
